@@ -430,6 +430,8 @@ class HealSparseMap(object):
         try:
             self._sparse_map.resize(newshape, refcheck=False)
         except ValueError:
+            if self._is_bit_packed:
+                raise
             # The storage does not own its data (e.g. it is a view of a temporary
             # array or was read from a file), so it cannot be resized in place.
             new_sparse_map = np.zeros(newshape, dtype=self._sparse_map.dtype)
